@@ -1873,7 +1873,45 @@ class FnEval:
             if rc is not None and ca is not None and ca[0] == ca[1]:
                 flip = {"Eq": "Eq", "Ne": "Ne", "Lt": "Gt", "Le": "Ge", "Gt": "Lt", "Ge": "Le"}[rv[1]]
                 conds.append((rc, flip, int(ca[0]), "single"))
+                return
+            # `let n = buf.len() / E; if n < k { return None }`: a test on the element count is a test on the length
+            for x, y, fl in ((a, c, False), (c, a, True)):
+                dv = self._len_div(x)
+                kv = self.op_ival(y)
+                if dv is None or kv is None or kv[0] != kv[1]:
+                    continue
+                op = rv[1]
+                if fl:
+                    op = {"Eq": "Eq", "Ne": "Ne", "Lt": "Gt", "Le": "Ge", "Gt": "Lt", "Ge": "Le"}[op]
+                root, e = dv
+                k = int(kv[0])
+                if op in ("Lt", "Ge"):
+                    conds.append((root, op, k * e, "single"))
+                elif op in ("Le", "Gt"):
+                    conds.append((root, op, (k + 1) * e - 1, "single"))
+                return
             return
+
+    def _len_div(self, op):
+        """(length root, E) when the operand is (a copy of) `len(root) / E`, E a positive constant"""
+        l = operand_local(op)
+        for _ in range(6):
+            if l is None:
+                return None
+            d = self.b.single_def(l)
+            if not d or d[2] != "A":
+                return None
+            rv = d[3][2]
+            if rv[0] == "use":
+                l = operand_local(rv[1])
+                continue
+            if rv[0] == "bin" and rv[1] == "Div":
+                root = self.len_root(rv[2])
+                e = self.op_ival(rv[3])
+                if root is not None and e is not None and e[0] == e[1] and 0 < e[0] < (1 << 32):
+                    return root, int(e[0])
+            return None
+        return None
 
     @staticmethod
     def _cond_interval(op, c, truth):
